@@ -81,8 +81,12 @@ PLANS = {
                "non-trivial: a scan of a group with a cordoned node (fresh, tainted, grace-expired, force-tainted), incl. the capacity gauge read-back",
                ["C09:cordoned-present", "C09:cordoned-tainted", "C09:cordoned-expired", "C09:cordoned-force", "C09:capacity-checked"]),
     "C10": ctl(["annot", "all_annot"], ["annot", "force", "all_annot", "all_reap"],
-               [D("reap", faults=5, twin=True), D("mix", twin=True)],
-               [D("reap", n=60, steps=100, procs=8, faults=5, twin=True), D("mix", n=60, steps=100, procs=8, twin=True)],
+               [D("reap", faults=5, twin=True), D("mix", twin=True), D("annotlate", n=10, steps=60, groups=1, faults=3, dry=0, twin=True),
+                # real time: what the controller remembers about a node (and when) ages too
+                D("annotlate", n=32, steps=26, procs=1, par=32, groups=1, faults=0, dry=0, realtime="4s")],
+               [D("reap", n=60, steps=100, procs=8, faults=5, twin=True), D("mix", n=60, steps=100, procs=8, twin=True),
+                D("annotlate", n=40, steps=80, procs=8, groups=1, faults=3, dry=0, twin=True),
+                D("annotlate", n=64, steps=60, procs=2, par=32, groups=1, faults=0, dry=0, realtime="4s")],
                "non-trivial: a scan of a group with a protected node: kept although expired, others removed next to it, protected node tainted / untainted",
                ["C10:protected-present", "C10:protected-expired-kept", "C10:others-removed", "C10:protected-untainted", "C10:twin-without-annotation"]),
     "C11": ctl(["dry"], ["dry"],
@@ -215,5 +219,7 @@ PLANS["C20"] = dict(kind="func", stages=[LOOP_STAGE], also_ctl=PLANS["C20"], rul
                     "(fatal condition / non-fatal failure / stop signal at every scan index)", required_facts=["loop-fatal-exit", "loop-stopped", "loop-non-fatal-failure-survived"],
                     assumptions=COMMON_ASSUMPTIONS)
 
+# hidden controller memory about annotations only shows along one controller lifetime: more TLC-generated behaviours for C10
+PLANS["C10"]["sim"] = dict(quick=dict(num=15, depth=45), thorough=dict(num=150, depth=60))
 PLANS["C03"]["proofs"] = True   # TaintClampKeepsMinimum etc. (ArithLemmas.tla, TLAPS) for unbounded node counts
 PLANS["C04"]["proofs"] = True   # CloudTargetWithinBound, ClampLandsOnBound, NoHeadroomNoRequest
